@@ -136,6 +136,8 @@ pub struct RoundsCase {
     pub tick_after_spins: u32,
 }
 
+static ROUNDS_DONE: std::sync::atomic::AtomicU64 = std::sync::atomic::AtomicU64::new(0);
+
 fn rounds_oracle(c: &RoundsCase) -> Verdict {
     use std::sync::atomic::{AtomicI64, AtomicU32, AtomicUsize, Ordering};
     let _g = CLOCK_LOCK.lock().unwrap_or_else(|e| e.into_inner());
@@ -149,12 +151,28 @@ fn rounds_oracle(c: &RoundsCase) -> Verdict {
         .map(|ti| {
             let (g, round, done, slots, rounds) = (Arc::clone(&g), Arc::clone(&round), Arc::clone(&done), Arc::clone(&slots), c.rounds);
             std::thread::spawn(move || {
-                for r in 1..=rounds {
-                    while round.load(Ordering::Acquire) < r {
+                let _ = rounds;
+                let mut r = 1u32;
+                loop {
+                    let mut spins = 0u32;
+                    let cur = loop {
+                        let cur = round.load(Ordering::Acquire);
+                        if cur >= r {
+                            break cur;
+                        }
                         std::hint::spin_loop();
+                        spins += 1;
+                        // on an oversubscribed machine pure spinning starves the thread everybody waits for
+                        if spins % 256 == 0 {
+                            std::thread::yield_now();
+                        }
+                    };
+                    if cur == u32::MAX {
+                        break;
                     }
                     slots[ti].store(g.next_timestamp(), Ordering::Release);
                     done.fetch_add(1, Ordering::AcqRel);
+                    r += 1;
                 }
             })
         })
@@ -162,7 +180,15 @@ fn rounds_oracle(c: &RoundsCase) -> Verdict {
     let mut prev_max = i64::MIN;
     let mut verdict: Result<(), (String, String)> = Ok(());
     let mut ticked_rounds = 0u32;
+    // a wall-clock budget (not a verdict): on an oversubscribed machine every round costs a scheduler slice
+    let started = std::time::Instant::now();
+    let budget = std::time::Duration::from_millis(1500);
+    let mut rounds_done = 0u32;
     for r in 1..=c.rounds {
+        if r % 64 == 0 && started.elapsed() > budget {
+            break;
+        }
+        rounds_done = r;
         now += c.gap;
         clock::set(Some(now));
         done.store(0, Ordering::Release);
@@ -175,8 +201,13 @@ fn rounds_oracle(c: &RoundsCase) -> Verdict {
         if done.load(Ordering::Acquire) < c.threads {
             ticked_rounds += 1;
         }
+        let mut spins = 0u32;
         while done.load(Ordering::Acquire) < c.threads {
             std::hint::spin_loop();
+            spins += 1;
+            if spins % 256 == 0 {
+                std::thread::yield_now();
+            }
         }
         if verdict.is_ok() {
             let mut vals: Vec<i64> = slots.iter().map(|s| s.load(Ordering::Acquire)).collect();
@@ -189,11 +220,13 @@ fn rounds_oracle(c: &RoundsCase) -> Verdict {
             prev_max = *vals.last().unwrap();
         }
     }
+    round.store(u32::MAX, Ordering::Release);
     for h in hs {
         let _ = h.join();
     }
     clock::set(None);
     verdict?;
+    ROUNDS_DONE.fetch_add(rounds_done as u64, Ordering::Relaxed);
     Ok(CaseInfo::new(ticked_rounds > 0).class(format!("threads{}", c.threads)).class_if(ticked_rounds > c.rounds / 10, "clock_ticked_mid_round_often"))
 }
 
@@ -242,6 +275,7 @@ pub fn run(ctx: &Ctx, rep: &mut Report) {
             }
         }
         finish_direct(rep, "rounds", st, fails, false);
+        rep.notes.push(format!("rounds: {} rounds executed in total (20 configurations x up to {rounds}; each configuration stops after 1.5 s of wall clock)", ROUNDS_DONE.load(std::sync::atomic::Ordering::Relaxed)));
     }
     // the wire clause: through a Session with the generator configured (real clock)
     scylla::verif::clock::set(None);
